@@ -1,0 +1,46 @@
+//go:build verif
+
+// Contracts for package templater (template functions usable in scenarios and variable sources), checked by /verif/govc.
+// Comment-only: no code.
+package templater
+
+// randInt(f, t): a number between the bounds; randInt() is 0..9; randInt(n, n) is n..n+9. No fault for any bounds
+// (integers are mathematical here: bounds whose difference overflows int64 are outside the proof).
+//@ func randInt
+//@ props C13
+//@ nilsafe
+//@ ensures [always-a-number] result1 == nil
+
+//@ func RandInt
+//@ props C13
+//@ nilsafe
+//@ ensures [too-many-arguments-is-an-error] imp(len(args) > 2, result1 != nil)
+
+//@ func randString
+//@ props C13
+//@ nilsafe
+//@ ensures [bad-count-is-an-error] imp(result_of(numbers.ParseInt, 1) != nil, result1 != nil)
+
+//@ func RandString
+//@ props C13
+//@ nilsafe
+//@ ensures [too-many-arguments-is-an-error] imp(len(args) > 2, result1 != nil)
+
+//@ func parseStr
+//@ props C13
+//@ nilsafe
+//@ modifies nothing
+//@ loop 0 invariant i >= 0
+
+//@ func ExecTemplateFunc
+//@ props C13
+//@ nilsafe
+//@ modifies nothing
+//@ loop 0 invariant len(a) == len(args)
+
+//@ func ExecTemplateFuncWithVariables
+//@ props C13 C15
+//@ nilsafe
+//@ requires iter != nil
+//@ modifies nothing
+//@ loop 0 invariant len(a) == len(args)
